@@ -21,9 +21,12 @@ APPEND = '''
 '''
 
 _live = []
+_owner = os.getpid()
 
 
 def _cleanup():
+    if os.getpid() != _owner:
+        return          # forked pool workers inherit the handlers; only the creating process removes the overlay
     for d in list(_live):
         shutil.rmtree(d, ignore_errors=True)
         try:
@@ -37,6 +40,8 @@ atexit.register(_cleanup)
 
 def _on_signal(signum, frame):
     _cleanup()
+    if os.getpid() != _owner:
+        os._exit(128 + signum)
     sys.exit(128 + signum)
 
 
